@@ -17,14 +17,15 @@
        * `fqSectioning`, `fqInterfaceLink`, `blocksConsumed`  pcapng.go:339-397 (sections)
        * `linkToDecodeFn`  shared.go:10-18 (link type dispatch table)
        * `fieldFlowsDir`   shared.go:37-56 (the metadata exposed per direction)
-  (iii) gopacket's assembler is NOT modelled.  It appears as an INTERFACE ASSUMPTION on the sequence of
+  (iii) gopacket's assembler: HERE only the INTERFACE between it and fq, as predicates on the sequence of
        `ReassembledSG` calls (`Delivers`, `FlushOnlyAtEnd`): data is handed over in stream order together
        with the number of bytes skipped before it; a skip (> 0) happens only during the single final
        `FlushAll` (gopacket `skipFlush`, tcpassembly.go:1181-1197, called from `FlushAll` :1317-1333 only,
        because fq never calls FlushWithOptions / FlushCloseOlderThan), and from the first skipped chunk of a
        direction on every later chunk of that direction is again preceded by a skip (contiguous pages are
-       delivered together by `addContiguous`, :1149-1176).  The correspondence run records the real call
-       sequence and checks this predicate on it.
+       delivered together by `addContiguous`, :1149-1176).  The assembler itself is transliterated in
+       FqModel/Gopacket.lean and the predicates are PROVED of it (Props.C19.gopacket_satisfies_interface);
+       the correspondence run still checks them on the recorded call sequence.
 -/
 namespace FqModel.Reasm
 
